@@ -50,6 +50,10 @@ class StopPath(Exception):
     pass
 
 
+class StopAll(Exception):
+    """abort the exploration (used by canary runs: one failed obligation is all that is asked for)"""
+
+
 INF = float('inf')
 
 
@@ -68,7 +72,8 @@ class Obligation:
         self.path = None
 
     def key(self):
-        return (self.name, hash(self.goal.sexpr()), tuple(hash(a.sexpr()) for a in self.assumptions[-6:]),
+        # obligations are merged only if name, goal AND every assumption coincide (same VC reached on two paths)
+        return (self.name, self.status, hash(self.goal.sexpr()), hash(tuple(a.get_id() for a in self.assumptions)),
                 len(self.assumptions))
 
 
@@ -307,6 +312,9 @@ class Engine:
             self.assume(goal)
 
     def _record(self, ob):
+        if getattr(self, 'stop_on_fail', False) and ob.status != 'unsat':
+            self.obligations.append(ob)
+            raise StopAll()
         k = ob.key()
         if k in self.seen:
             return
@@ -604,6 +612,9 @@ class Engine:
                 pass
             except StopPath:
                 pass
+            except StopAll:
+                outcomes.append(('aborted', None))
+                break
         self.paths += n_paths
         return outcomes
 
@@ -659,6 +670,14 @@ class Engine:
         outcomes.append((outcome[0], outcome[1].cls if outcome[0] == 'raise' else None))
 
     def _check_contract(self, contract, case, outcome):
+        # vacuity guard: a path whose assumptions are contradictory proves everything; it is dropped here, and a case
+        # without any live path is reported as vacuous by the caller
+        self.qf.set('timeout', 300)
+        if self.qf.check() == z3.unsat:
+            raise Infeasible()
+        self.solver.set('timeout', 300)
+        if self.solver.check() == z3.unsat:
+            raise Infeasible()
         raises = dict(contract.get('raises', {}))
         raises.update(case.get('raises', {}))
         env = dict(self.entry_env)
